@@ -120,6 +120,7 @@ type Obs struct {
 	Nodes   []string       `json:"nodes,omitempty"`
 	Text    string         `json:"text,omitempty"`
 	OpCkpts []OpCheckpoint `json:"opCkpts,omitempty"`
+	Superseded bool        `json:"superseded,omitempty"` // published: a newer checkpoint was written before this one (the job removes the file again)
 }
 
 // OpCheckpoint describes one operator checkpoint of a job checkpoint / deploy request.
@@ -174,6 +175,7 @@ type generation struct {
 	retired bool
 	storeWG sync.WaitGroup // job-storage writes / removals in progress (retire waits for them: a restart never sees a half-written snapshot)
 	pubs, expectRetain, gotRetain int // publications / retention calls expected and finished (see WaitRetention)
+	maxPub  uint64 // highest checkpoint id written by (or loaded into) this generation's job
 	booting bool // until Boot returns: watermark events are not delivered (an operator still loading its DKV rejects them and the runner dies)
 	job     *jobs.Job
 	jobClock *Clock
@@ -268,6 +270,7 @@ func (c *Cluster) Close() {
 	if g != nil {
 		g.retire()
 	}
+	dkvDrain() // tuned memtables: flush / compaction tasks of halted operators still write into the directory
 	if c.ownDir {
 		os.RemoveAll(c.opt.Dir)
 	}
